@@ -59,6 +59,9 @@ const uint32 maskl[33] = {0x00000000, 0x00000001, 0x00000003, 0x00000007, 0x0000
 static int library_terminate = FALSE;
 
 /* Local Function Declarations */
+/* resolve a bit-file ID only if it is one (HAatom_object resolves any atom) */
+#define HIbitid2rec(id) ((HAatom_group(id) == BITIDGROUP) ? (bitrec_t *)HAatom_object(id) : (bitrec_t *)NULL)
+
 static bitrec_t *HIget_bitfile_rec(void);
 
 static int HIbitflush(bitrec_t *bitfile_rec, int flushbit, int writeout);
@@ -253,7 +256,7 @@ Hbitappendable(int32 bitid)
     /* clear error stack and check validity of file id */
     HEclear();
 
-    if ((bitfile_rec = HAatom_object(bitid)) == NULL)
+    if ((bitfile_rec = HIbitid2rec(bitid)) == NULL)
         HRETURN_ERROR(DFE_ARGS, FAIL);
 
     /* Check for write access */
@@ -301,7 +304,7 @@ Hbitwrite(int32 bitid, int count, uint32 data)
 
     /* Look the record up on every call: a record cached across calls would
        survive Hendbitaccess() of its id (HAatom_object has its own cache) */
-    bitfile_rec = HAatom_object(bitid);
+    bitfile_rec = HIbitid2rec(bitid);
 
     if (bitfile_rec == NULL)
         HRETURN_ERROR(DFE_ARGS, FAIL);
@@ -431,7 +434,7 @@ Hbitread(int32 bitid, int count, uint32 *data)
 
     /* Look the record up on every call: a record cached across calls would
        survive Hendbitaccess() of its id (HAatom_object has its own cache) */
-    bitfile_rec = HAatom_object(bitid);
+    bitfile_rec = HIbitid2rec(bitid);
 
     if (bitfile_rec == NULL)
         HRETURN_ERROR(DFE_ARGS, FAIL);
@@ -548,7 +551,7 @@ Hbitseek(int32 bitid, int32 byte_offset, int bit_offset)
     HEclear();
 
     if (byte_offset < 0 || bit_offset < 0 || bit_offset > ((int)BITNUM - 1) ||
-        (bitfile_rec = HAatom_object(bitid)) == NULL || byte_offset > bitfile_rec->max_offset)
+        (bitfile_rec = HIbitid2rec(bitid)) == NULL || byte_offset > bitfile_rec->max_offset)
         HRETURN_ERROR(DFE_ARGS, FAIL);
 
     /* determine whether we need to seek to another block in the file */
@@ -661,7 +664,7 @@ Hendbitaccess(int32 bitfile_id, int flushbit)
     bitrec_t *bitfile_rec; /* bitfile record */
 
     /* check validity of access id */
-    bitfile_rec = HAatom_object(bitfile_id);
+    bitfile_rec = HIbitid2rec(bitfile_id);
     if (bitfile_rec == NULL)
         HRETURN_ERROR(DFE_ARGS, FAIL);
 
